@@ -93,56 +93,85 @@ def gen_sgr_map(repo):
 KW = ("markup", "emoji", "highlight")
 
 
-def _is_self_attr(node, suffix):
-    return (isinstance(node, ast.Attribute) and isinstance(node.value, ast.Name) and node.value.id == "self"
-            and node.attr.endswith(suffix))
+def _single_aliases(fn):
+    """local names bound exactly once in the function by `name = <expr>` where <expr> only *refers* to
+    something (attribute chain, call, str.join ...) -- not a literal the code goes on to mutate.  Such a
+    name can be replaced by its definition: `f = obj.attr; f(x)` == `obj.attr(x)`."""
+    counts, rhs = {}, {}
+    for n in ast.walk(fn):
+        targets = []
+        if isinstance(n, ast.Assign):
+            targets = n.targets
+        elif isinstance(n, (ast.AnnAssign, ast.AugAssign)):
+            targets = [n.target]
+        elif isinstance(n, (ast.For, ast.comprehension)):
+            targets = [n.target]
+        elif isinstance(n, ast.withitem) and n.optional_vars is not None:
+            targets = [n.optional_vars]
+        for t in targets:
+            for m in ast.walk(t):
+                if isinstance(m, ast.Name):
+                    counts[m.id] = counts.get(m.id, 0) + 1
+                    if isinstance(n, ast.Assign) and len(n.targets) == 1 and m is n.targets[0]:
+                        rhs[m.id] = n.value
+    params = {a.arg for a in fn.args.args + fn.args.kwonlyargs}
+    return {k: v for k, v in rhs.items()
+            if counts.get(k) == 1 and k not in params and isinstance(v, (ast.Attribute, ast.Call, ast.Name))}
 
 
-def _is_decode_line_call(node):
-    return (isinstance(node, ast.Call) and isinstance(node.func, ast.Attribute) and node.func.attr == "decode_line"
-            and _is_self_attr(node.func.value, "__ansi_decoder") and len(node.args) == 1 and not node.keywords)
+class _Subst(ast.NodeTransformer):
+    def __init__(self, aliases, depth=0):
+        self.aliases, self.depth = aliases, depth
+
+    def visit_Name(self, node):
+        if isinstance(node.ctx, ast.Load) and node.id in self.aliases and self.depth < 6:
+            import copy
+            return _Subst(self.aliases, self.depth + 1).visit(copy.deepcopy(self.aliases[node.id]))
+        return node
 
 
-def _decoded_expr(node):
-    """True: the expression is decode_line(x) or Text("\\n").join(decode_line(l) for l in lines);
-    False: it is "".join(buffer) (a plain str); otherwise untranslatable."""
-    if _is_decode_line_call(node):
+def _resolved(fn, node):
+    """source text of the expression with single-assignment local aliases replaced by their definitions"""
+    import copy
+    return ast.unparse(_Subst(_single_aliases(fn)).visit(copy.deepcopy(node)))
+
+
+_DEC = r"self\.__ansi_decoder\.decode_line"
+_BUF = r"self\.__buffer"
+
+
+def _decoded_expr(src):
+    """True: the printed object is the output of THIS proxy's decoder -- decode_line(x), or
+    Text("\n").join of decode_line over `lines`; False: it is the raw pending str; else untranslatable."""
+    import re
+    if re.fullmatch(_DEC + r"\(.+\)", src) and src.count("decode_line") == 1:
         return True
-    if (isinstance(node, ast.Call) and isinstance(node.func, ast.Attribute) and node.func.attr == "join"
-            and len(node.args) == 1 and not node.keywords):
-        recv, arg = node.func.value, node.args[0]
-        if (isinstance(recv, ast.Call) and isinstance(recv.func, ast.Name) and recv.func.id == "Text"
-                and len(recv.args) == 1 and not recv.keywords
-                and isinstance(recv.args[0], ast.Constant) and recv.args[0].value == "\n"
-                and isinstance(arg, ast.GeneratorExp) and len(arg.generators) == 1
-                and not arg.generators[0].ifs and _is_decode_line_call(arg.elt)
-                and isinstance(arg.generators[0].iter, ast.Name) and arg.generators[0].iter.id == "lines"):
+    m = re.fullmatch(r"Text\('\\n'\)\.join\((.+)\)", src)
+    if m:
+        inner = m.group(1).strip()
+        if re.fullmatch(r"[\(\[]" + _DEC + r"\((\w+)\) for (\w+) in lines[\)\]]", inner):
+            g = re.fullmatch(r"[\(\[]" + _DEC + r"\((\w+)\) for (\w+) in lines[\)\]]", inner)
+            if g.group(1) == g.group(2):
+                return True
+        if re.fullmatch(r"map\(" + _DEC + r", lines\)", inner):
             return True
-        if isinstance(recv, ast.Constant) and recv.value == "" and isinstance(arg, ast.Name) and arg.id == "buffer":
-            return False
-    raise Untranslatable(f"printed expression not recognised: {ast.unparse(node)[:80]}")
+    if re.fullmatch(r"''\.join\(" + _BUF + r"\)", src):
+        return False
+    raise Untranslatable(f"printed expression not recognised: {src[:100]}")
 
 
 def _print_site(fn):
-    """(decoded?, {kw: bool}) of the single console.print call of the method"""
+    """(decoded?, {kw: bool}) of the single console.print call of the method; local aliases resolved"""
     calls = [n for n in ast.walk(fn) if isinstance(n, ast.Call) and isinstance(n.func, ast.Attribute)
              and n.func.attr == "print"]
     if len(calls) != 1:
         raise Untranslatable(f"{fn.name}: expected exactly one .print(...) call, found {len(calls)}")
     call = calls[0]
-    recv = call.func.value
-    if not (_is_self_attr(recv, "__console") or (isinstance(recv, ast.Name) and recv.id == "console")):
-        raise Untranslatable(f"{fn.name}: print receiver is not the console")
+    if _resolved(fn, call.func.value) != "self.__console":
+        raise Untranslatable(f"{fn.name}: print receiver is not this proxy's console")
     if len(call.args) != 1:
         raise Untranslatable(f"{fn.name}: print with {len(call.args)} positional arguments")
-    arg = call.args[0]
-    if isinstance(arg, ast.Name):
-        assigns = [n for n in ast.walk(fn) if isinstance(n, ast.Assign) and len(n.targets) == 1
-                   and isinstance(n.targets[0], ast.Name) and n.targets[0].id == arg.id]
-        if len(assigns) != 1:
-            raise Untranslatable(f"{fn.name}: printed name {arg.id} is not assigned exactly once")
-        arg = assigns[0].value
-    decoded = _decoded_expr(arg)
+    decoded = _decoded_expr(_resolved(fn, call.args[0]))
     kws = {}
     for k in call.keywords:
         if k.arg not in KW:
@@ -162,36 +191,50 @@ def _kw_def(name, kws):
             f"Definition {name} : list (option bool) := [" + "; ".join(one(k) for k in KW) + "].\n")
 
 
+def _conjuncts(test):
+    if isinstance(test, ast.BoolOp) and isinstance(test.op, ast.And):
+        return sorted(ast.unparse(v) for v in test.values)
+    return [ast.unparse(test)]
+
+
 def _redirect_facts(repo, rel, clsname):
     """[(guard, reset) for stdout, stderr] from _enable_redirect_io / _disable_redirect_io of the class:
-    guard = the enabling `if` also requires `self._restore_X is None`; reset = disable sets it back to None"""
+    guard = the enabling `if` also requires `self._restore_X is None`; reset = disable sets it back to None.
+    The two per-stream `if` blocks may come in either order; conjuncts of a test in either order;
+    `if self._restore_X:` and `if self._restore_X is not None:` are the same test for a stream object."""
     tree, _ = parse(repo, rel)
     cls = find_class(tree, clsname)
     en = find_func(cls.body, "_enable_redirect_io")
     dis = find_func(cls.body, "_disable_redirect_io")
-    body = [n for n in en.body if not (isinstance(n, ast.Expr) and isinstance(n.value, ast.Constant))]
-    if not (len(body) == 1 and isinstance(body[0], ast.If) and ast.unparse(body[0].test) == "self.console.is_terminal"
+    body = [n for n in en.body if not (isinstance(n, ast.Expr) and isinstance(n.value, ast.Constant))
+            and not isinstance(n, ast.Assign)]
+    if not (len(body) == 1 and isinstance(body[0], ast.If) and _resolved(en, body[0].test) == "self.console.is_terminal"
             and not body[0].orelse):
         raise Untranslatable(f"{clsname}._enable_redirect_io: not a single `if self.console.is_terminal:`")
-    ifs = body[0].body
-    dbody = [n for n in dis.body if not (isinstance(n, ast.Expr) and isinstance(n.value, ast.Constant))]
+    ifs = [n for n in body[0].body if not isinstance(n, ast.Assign)]
+    difs = [n for n in dis.body if not (isinstance(n, ast.Expr) and isinstance(n.value, ast.Constant))]
+    if len(ifs) != 2 or len(difs) != 2 or not all(isinstance(n, ast.If) and not n.orelse for n in ifs + difs):
+        raise Untranslatable(f"{clsname}: redirect methods are not two plain `if` statements")
     out = []
-    for i, x in enumerate(("stdout", "stderr")):
-        if len(ifs) != 2 or len(dbody) != 2 or not isinstance(ifs[i], ast.If) or not isinstance(dbody[i], ast.If):
-            raise Untranslatable(f"{clsname}: redirect methods are not two `if` statements")
-        test = ast.unparse(ifs[i].test)
-        if test == f"self._redirect_{x}":
+    for x in ("stdout", "stderr"):
+        mine = [n for n in ifs if f"_redirect_{x}" in ast.unparse(n.test)]
+        dmine = [n for n in difs if f"_restore_{x}" in ast.unparse(n.test)]
+        if len(mine) != 1 or len(dmine) != 1:
+            raise Untranslatable(f"{clsname}: no unique block for {x}")
+        conj = _conjuncts(mine[0].test)
+        if conj == [f"self._redirect_{x}"]:
             guard = False
-        elif test == f"self._redirect_{x} and self._restore_{x} is None":
+        elif conj == sorted([f"self._redirect_{x}", f"self._restore_{x} is None"]):
             guard = True
         else:
-            raise Untranslatable(f"{clsname}._enable_redirect_io: test `{test}` not recognised")
-        stm = [ast.unparse(n) for n in ifs[i].body]
-        if ifs[i].orelse or stm != [f"self._restore_{x} = sys.{x}", f"sys.{x} = FileProxy(self.console, sys.{x})"]:
-            raise Untranslatable(f"{clsname}._enable_redirect_io: body for {x} not recognised: {stm}")
-        if ast.unparse(dbody[i].test) != f"self._restore_{x}" or dbody[i].orelse:
+            raise Untranslatable(f"{clsname}._enable_redirect_io: test `{ast.unparse(mine[0].test)}` not recognised")
+        stm = [_resolved(en, n.value) if isinstance(n, ast.Assign) else None for n in mine[0].body]
+        tg = [ast.unparse(n.targets[0]) if isinstance(n, ast.Assign) and len(n.targets) == 1 else None for n in mine[0].body]
+        if tg != [f"self._restore_{x}", f"sys.{x}"] or stm != [f"sys.{x}", f"FileProxy(self.console, sys.{x})"]:
+            raise Untranslatable(f"{clsname}._enable_redirect_io: body for {x} not recognised")
+        if ast.unparse(dmine[0].test) not in (f"self._restore_{x}", f"self._restore_{x} is not None"):
             raise Untranslatable(f"{clsname}._disable_redirect_io: test for {x} not recognised")
-        stm = [ast.unparse(n) for n in dbody[i].body]
+        stm = [ast.unparse(n) for n in dmine[0].body]
         if stm == [f"sys.{x} = self._restore_{x}", f"self._restore_{x} = None"]:
             reset = True
         elif stm == [f"sys.{x} = self._restore_{x}"]:
